@@ -470,14 +470,18 @@ def make_collection(s, docs, how, allow_incomplete, tmpdir=None, names=None):
             _S3['n'] += 1
             bucket = 'bucket-%d' % _S3['n']
             f3.BUCKETS.pop(bucket, None)
+            # the prefix is a plain key prefix: it need not end at a "folder" boundary
+            prefix = ['pre/fix/', 'pre/fix/run7-', 'pre/fix/r', 'pre/fix'][_S3['n'] % 4]
+            stem = {'pre/fix/': 'pre/fix/', 'pre/fix/run7-': 'pre/fix/run7-', 'pre/fix/r': 'pre/fix/run7-', 'pre/fix': 'pre/fix/'}[prefix]
             for k, d in enumerate(docs):
-                f3.put(bucket, 'pre/fix/%s' % (names[k] if names else
-                                               ['k%03d.mos.xml', 'k.%03d.v2.mos.xml', '22.31.%03d-msg.mos.xml',
-                                                'k+%03d %%2F.mos.xml'][(_S3['n'] + k) % 4] % k), d)
+                f3.put(bucket, stem + (names[k] if names else
+                                       ['k%03d.mos.xml', 'k.%03d.v2.mos.xml', '22.31.%03d-msg.mos.xml',
+                                        'k+%03d %%2F.mos.xml'][(_S3['n'] + k) % 4] % k), d)
             f3.put(bucket, 'pre/fix/ignored.txt', 'not a mos file')
             f3.put(bucket, 'other/zzz.mos.xml', '<mos/>')
+            f3.put(bucket, 'pre/other-run.mos.xml', '<mos/>')
             f3.CONFIG['page_size'] = 1 + (_S3['n'] % 5)
-            return mcmod.MosCollection.from_s3(bucket_name=bucket, prefix='pre/fix/', **kwargs), None
+            return mcmod.MosCollection.from_s3(bucket_name=bucket, prefix=prefix, **kwargs), None
         raise ValueError(how)
     except Exception as e:
         return None, e
